@@ -344,7 +344,11 @@ class IPrefix6(IPrefix, IComponent, FlowIPv6):
         Returns:
             New instance of cls with packed wire format
         """
-        packed = bytes([netmask]) + raw[: CIDR.size(netmask)]
+        address = bytearray(raw[: CIDR.size(netmask)])
+        if address and netmask % 8:
+            # RFC 8956 3.1: the padding after the last prefix bit is zero on encoding
+            address[-1] &= (0xFF << (8 - netmask % 8)) & 0xFF
+        packed = bytes([netmask]) + bytes(address)
         return cls(packed, offset)
 
     def pack(self) -> bytes:
